@@ -569,3 +569,29 @@ def c05(run):
         if not lines:
             raise MachineryError(module + ": nothing was recorded")
         validate(run, "Trace_ArchiveRobust", r["log"], "C05." + ("vol" if "Vol" in module else "clm"), what="call script on faulted image")
+
+
+# ======================================================================================================
+# beyond the listed properties ("extras"): conformance of specification modules that no property of properties.jsonl names.
+# A disagreement here is reported as EXTRA-DISAGREEMENT (never as a VIOLATION of a listed property); results go to /verif/extras/.
+
+def x01(run):
+    """Path helpers (XPaths: explicit lexical model) and the list helpers of StringUtility."""
+    for ts in ("TRUE", "FALSE"):      # both flavours of the path library; the harness replays the one it was linked with
+        run.scen("MC_XPaths", {"TS": ts}, invariants=("SplitJoin", "StemExt", "ChangeThenMatch", "ReplaceKeepsDirectory", "Export"), workers=4, name=f"MC_XPaths TS={ts}")
+    run.scen("MC_XStrings", {}, invariants=("RemovalIsIdempotent", "RemovedAreGone", "Export"), workers=8)
+
+
+def x02(run):
+    """The file-system helpers of XFile and FileWriter's file creation as a state machine (XFs): exhaustive walks on a real directory."""
+    g = vlib.generate("MC_XFs", {}, invariants=("TypeOK",), workers=4, tag="T")
+    run.states += g["states"]; run.transitions += g["n"]
+    run.sample(g["records"][len(g["records"]) // 2])
+    ops = {t["op"] for t in g["records"]}
+    if ops != {"NewDirectory", "WriteFile", "DeletePath", "RenameFile"}:
+        raise MachineryError("vacuity: actions of XFs never taken: %s" % ops)
+    res = vlib.run_isolated([run.harness("fs_walk"), "--rel", g["file"], "--root", vlib.shm_dir(), "--depth", "3" if run.thorough else "2",
+                             "--random", "6000" if run.thorough else "2500", "--len", "30", "--seed", str(vlib.SEED)], max_crashes=40)
+    run.traces += res["summary"].get("walks", 0); run.steps += res["summary"].get("steps", 0)
+    run.add_mismatches(res["mismatches"])
+    run.part("XFs walk", walks=res["summary"].get("walks", 0), steps=res["summary"].get("steps", 0), tlc_states=g["states"], transitions=g["n"])
